@@ -16,7 +16,8 @@ single slot invocation:
 
 The rule expands the template for the three instantiations (mini Tempita expander of rules/pC15, placeholders for the context
 strings), resolves its #if lines by enumeration, and explores every path of the slot function with rules/sC22.Explorer: flags assigned
-from type tests are forked over {0, 1} at the assignment and remember which operand they test (the operand that occurs in a call
+from type tests are forked over {0, 1} at the assignment (the disjunct `Py_TYPE(left) == Py_TYPE(right)` shared by both flags is one
+boolean of the path state, so same-type paths set both flags) and remember which operand they test (the operand that occurs in a call
 together with the type object), `res != Py_NotImplemented` is explored both ways.  Nothing is compiled or run.
 """
 import re
@@ -49,11 +50,57 @@ def slot_function(expanded):
     return params, expanded[b0:_match_brace(expanded, b0) + 1]
 
 
+SAME_MARK = frozenset({'=='})
+
+
+def _balanced(t):
+    d = 0
+    for ch in t:
+        d += ch == '('
+        d -= ch == ')'
+        if d < 0:
+            return False
+    return d == 0
+
+
+def _split_or(t):
+    """top-level operands of a || chain"""
+    out, cur, depth, i = [], '', 0, 0
+    while i < len(t):
+        ch = t[i]
+        if ch == '(':
+            depth += 1
+        elif ch == ')':
+            depth -= 1
+        if depth == 0 and t.startswith('||', i):
+            out.append(cur.strip())
+            cur = ''
+            i += 2
+            continue
+        cur += ch
+        i += 1
+    out.append(cur.strip())
+    return out
+
+
 class SlotClient(Client):
     events = tuple(CALLS.values())
 
-    def __init__(self, operands):
+    def __init__(self, operands, same=None):
         self.operands = operands
+        self.same = same        # None: the same-exact-type situation is not distinguished; 0/1: explored separately (rule C28-SAME)
+
+    def symmetric(self, d, env):
+        """is the disjunct `d` the test "both operands have the same exact type" (or a flag holding it)?"""
+        t = ''.join(d.split())
+        while t.startswith('(') and t.endswith(')') and _balanced(t[1:-1]):
+            t = t[1:-1]
+        a, b = self.operands
+        forms = {'Py_TYPE(%s)==Py_TYPE(%s)' % (a, b), 'Py_TYPE(%s)==Py_TYPE(%s)' % (b, a), 'Py_IS_TYPE(%s,Py_TYPE(%s))' % (a, b), 'Py_IS_TYPE(%s,Py_TYPE(%s))' % (b, a)}
+        if t in forms:
+            return True
+        v = env.get(t) if env is not None else None
+        return isinstance(v, tuple) and v[0] == 'F' and v[2] == SAME_MARK
 
     def subjects(self, text):
         """operands that occur in one call together with the type object or compared with the slot function itself"""
@@ -65,8 +112,18 @@ class SlotClient(Client):
             subj |= {o for o in self.operands if re.search(r'\b%s\b' % o, m.group(1))}
         return frozenset(subj)
 
-    def flag_values(self, text):
+    def flag_values(self, text, env=None):
         t = text.strip()
+        if self.same is not None:
+            parts = [p for p in _split_or(t)]
+            sym = [p for p in parts if self.symmetric(p, env)]
+            if sym:
+                if len(parts) == 1:
+                    return [('F', self.same, SAME_MARK)]
+                if self.same:
+                    rest = ' || '.join(p for p in parts if p not in sym)
+                    return [('F', 1, self.subjects(rest))]
+                t = ' || '.join(p for p in parts if p not in sym)
         if re.fullmatch(r'\(*\s*[01]\s*\)*', t):
             return [('F', int(re.search(r'[01]', t).group(0)), frozenset())]
         if any(c in t for c in CALLS.values()) or not any(re.search(r'\b%s\b' % o, t) for o in self.operands):
@@ -84,10 +141,10 @@ class SlotClient(Client):
         return ['UNK']
 
     def values_text(self, text, env):
-        return self.flag_values(text)
+        return self.flag_values(text, env)
 
-    def assign_text(self, text):
-        return self.flag_values(text)
+    def assign_text(self, text, env=None):
+        return self.flag_values(text, env)
 
     def atom(self, e, env):
         if e[0] == 'id':
@@ -121,7 +178,7 @@ class FlagExplorer(Explorer):
 
     def assign(self, name, rhs, state):
         if rhs is not None:
-            vals = self.c.assign_text(rhs)
+            vals = self.c.assign_text(rhs, dict(state[0]))
             if vals is not None:
                 env, trace = dict(state[0]), state[1]
                 out = []
@@ -150,7 +207,10 @@ def dispatch_problems(template_text, what='BinopSlot'):
         npaths, ncalls = 0, {'left': 0, 'right': 0}
         once_bad, self_bad, try_bad = {}, {}, {}
         for label, variant in pp_variants(body):
-            finals = FlagExplorer(SlotClient(operands), cfg).run(variant)
+            # the situation "both operands have the same exact type" (a disjunct of both flags) is explored separately
+            finals = set()
+            for same in (0, 1):
+                finals |= {(env, trace) for env, trace in FlagExplorer(SlotClient(operands, same=same), cfg).run(variant)}
             npaths += len(finals)
             for env, trace in finals:
                 calls = [ev for ev in trace if ev[0] == 'call']
@@ -240,4 +300,53 @@ def rule_dispatch(ctx, floor=13):
         r.violate('ExtensionTypes.c:' + k, rel, sec.line, msg)
     _, ctl = dispatch_problems(CONTROL, 'control')
     r.positive_control([k for k, _ in ctl] == ['control[left=0,right=1]:call_right:once'], 'reflected method asked again after NotImplemented (flag not cleared)')
+    return r
+
+
+def same_type_problems(template_text, what='BinopSlot'):
+    """paths on which both operands have the same exact type: an equivalent Python class only ever calls the forward method
+    (slot_nb_* returns after it when Py_IS_TYPE(other, Py_TYPE(self)); binary_op1 does not try a second slot for identical types)"""
+    insts, probs = [], {}
+    text = strip_c_comments(template_text)
+    for ol, orr in CONFIGS:
+        cfg = '%s[left=%d,right=%d]' % (what, ol, orr)
+        expanded = tempita_expand(text, context(ol, orr))
+        params, body = slot_function(expanded)
+        operands = params[:2]
+        key = '%s:call_right:same-type' % cfg
+        npaths = 0
+        for label, variant in pp_variants(body):
+            for env, trace in FlagExplorer(SlotClient(operands, same=1), cfg).run(variant):
+                npaths += 1
+                calls = [ev[1] for ev in trace if ev[0] == 'call']
+                if 'right' in calls:
+                    probs.setdefault(key, 'with overloads_left=%d, overloads_right=%d and both operands of the same exact type the slot function evaluates {{call_right}} (calls made: %s; #if: %s): '
+                                     'a Python class only tries the forward method for `a OP b` with type(a) is type(b) and raises TypeError when it returns NotImplemented' % (
+                                         ol, orr, ' then '.join('call_' + c for c in calls), label))
+        if not npaths:
+            raise AnalysisError('%s: no same-type path' % cfg)
+        insts.append((key, '%s: %d same-type paths' % (key, npaths)))
+    return insts, sorted(probs.items())
+
+
+FIXED_CONTROL = CONTROL.replace('int maybe_self_is_left, maybe_self_is_right = 0;', 'int maybe_self_is_left, maybe_self_is_right = 0;\n    const int same_type = Py_TYPE(left) == Py_TYPE(right);') \
+    .replace('if (maybe_self_is_right) {\n            res = {{call_right}};', 'if (maybe_self_is_right && !same_type) {\n            res = {{call_right}};') \
+    .replace('res = {{call_left}};\n        if (res != Py_NotImplemented) return res;', 'res = {{call_left}};\n        if (res != Py_NotImplemented || same_type) return res;')
+
+
+# pending finding (FINDING_1): reports the three instantiations on the unmodified tree — NOT registered in props/C28.run()
+def rule_same_type(ctx, floor=3):
+    r = Rule('C28-SAME', 'BinopSlot template: when both operands have the same exact type only {{call_left}} (the forward method) is evaluated, as for a Python class', floor)
+    rel = 'Cython/Utility/ExtensionTypes.c'
+    sec = ctx.cat.files.get('ExtensionTypes.c', {}).get('BinopSlot', {}).get('impl')
+    if sec is None:
+        raise AnalysisError('utility section ExtensionTypes.c::BinopSlot vanished')
+    insts, probs = same_type_problems(sec.raw)
+    for k, sample in insts:
+        r.inst('ExtensionTypes.c:' + k, sample=sample)
+    for k, msg in probs:
+        r.violate('ExtensionTypes.c:' + k, rel, sec.line, msg)
+    _, bad = same_type_problems(CONTROL, 'control')
+    _, good = same_type_problems(FIXED_CONTROL, 'control')
+    r.positive_control(len(bad) == 3 and not good, 'reflected method tried for operands of identical type; silent on the same_type-guarded variant')
     return r
